@@ -757,13 +757,17 @@ impl Router {
                             continue;
                         }
 
-                        // Remove connections from all groups
-                        // discard empty group ( group with no client )
-                        // note: can we do this in better way?
-                        self.shared_subscriptions.retain(|_, group| {
-                            group.remove_client(&client_id);
-                            !group.is_empty()
-                        });
+                        // Remove the connection from the group of this shared subscription
+                        // (it stays a member of the groups of its other subscriptions) and
+                        // discard the group when it has no client left
+                        if let Some(key) = filter.strip_prefix("$share/") {
+                            if let Some(group) = self.shared_subscriptions.get_mut(key) {
+                                group.remove_client(&client_id);
+                                if group.is_empty() {
+                                    self.shared_subscriptions.remove(key);
+                                }
+                            }
+                        }
 
                         if let Some(broker_aliases) = connection.broker_topic_aliases.as_mut() {
                             broker_aliases.remove_alias(filter);
